@@ -238,6 +238,9 @@ func c16Diff(d *corazawaf.VerifRuleDump, want *slDesc) string {
 		got[strings.ToLower(a)] = true
 	}
 	for f := range flags {
+		if f == "block" {
+			continue // block stands for the inherited disruptive action and is replaced by it
+		}
 		if !got[f] {
 			return fmt.Sprintf("action %s was written but is not among the compiled actions %v", f, d.Actions)
 		}
@@ -408,7 +411,8 @@ func C16(run *vf.Run) {
 			return f
 		}
 	}
-	groups := map[string]map[string]string{} // description -> dump -> one text
+	groups := map[string]map[string]string{}    // description -> dump -> one text
+	groupsPre := map[string]map[string]string{} // the same under a SecDefaultAction
 	for i := range cases {
 		c := &cases[i]
 		text := strings.Join(c.Toks, "")
@@ -468,6 +472,15 @@ func C16(run *vf.Run) {
 				groups[string(dk)] = map[string]string{}
 			}
 			groups[string(dk)][c16DumpKey(dumps[0])] = text
+			// the same text under a SecDefaultAction: what a rule inherits must not depend on how it is written
+			if dp, ep, pp := c16Compile("SecDefaultAction \"phase:2,log,auditlog,deny,status:403\"\n"+text, ""); pp != "" || ep != "" || len(dp) != 1 {
+				report("seclang:valid-text-rejected|default-action+"+feat(c), fmt.Sprintf("a valid rendering is rejected once a SecDefaultAction precedes it (error %q panic %q)", ep, pp), c, text)
+			} else {
+				if groupsPre[string(dk)] == nil {
+					groupsPre[string(dk)] = map[string]string{}
+				}
+				groupsPre[string(dk)][c16DumpKey(dp[0])] = text
+			}
 			// a chain split across files: the starter in the main text, the links in an included file
 			if c.Fam == "chain" {
 				cut := -1
@@ -529,18 +542,24 @@ func C16(run *vf.Run) {
 			report("seclang:near-miss-compiled-differs|"+mutSig, fmt.Sprintf("near-miss text (%s of the delimiter in role %s) compiles into something other than what it says: %s", c.Mut.Kind, c.Mut.Role, diff), c, text)
 		}
 	}
-	for dk, g := range groups {
-		if len(g) > 1 {
-			var texts []string
-			for _, t := range g {
-				texts = append(texts, strconv.Quote(t))
+	for pass, gm := range []map[string]map[string]string{groups, groupsPre} {
+		for dk, g := range gm {
+			if len(g) > 1 {
+				var texts []string
+				for _, t := range g {
+					texts = append(texts, strconv.Quote(t))
+				}
+				sort.Strings(texts)
+				var ds []slDesc
+				_ = json.Unmarshal([]byte(dk), &ds)
+				c := &slCase{DS: ds, D: ds[0]}
+				c.Mut.Kind = "none"
+				what := "equivalent renderings of one description compile to different rules: "
+				if pass == 1 {
+					what = "under SecDefaultAction \"phase:2,log,auditlog,deny,status:403\" equivalent renderings of one description compile to different rules: "
+				}
+				report("seclang:renderings-differ|"+fmt.Sprint(pass), what+strings.Join(texts, " vs "), c, texts[0])
 			}
-			sort.Strings(texts)
-			var ds []slDesc
-			_ = json.Unmarshal([]byte(dk), &ds)
-			c := &slCase{DS: ds, D: ds[0]}
-			c.Mut.Kind = "none"
-			report("seclang:renderings-differ|"+fmt.Sprint(len(g)), "equivalent renderings of one description compile to different rules: "+strings.Join(texts, " vs "), c, texts[0])
 		}
 	}
 }
